@@ -30,7 +30,9 @@ CondT(t, a) ==
   IF t.k = "dep" THEN a.name \in Range(t.holds)
   ELSE IF t.k = "lit" THEN \E j \in DOMAIN t.vals : ValEq(t.vals[j], a.v)
   ELSE TRUE
-CondM(m, call) == \A p \in DOMAIN call.pos : CondT(m.pos[p], call.pos[p])
+CondM(m, call) ==
+  /\ \A p \in DOMAIN call.pos : CondT(m.pos[p], call.pos[p])
+  /\ \A q \in DOMAIN call.kwn : HasKw(m, call.kwn[q]) => CondT(m.kwt[KwIdx(m, call.kwn[q])], call.kwa[q])
 
 (* strategy selection of generate_dependent_dispatch for one dispatched    *)
 (* position (H = the rank's methods in list order)                         *)
@@ -82,6 +84,23 @@ ImplValueOutcomeOf(M, ranks, call) ==
 
 ImplValueOutcomes(W, M, call) == {ImplValueOutcomeOf(M, r, call) : r \in RankLists(W, M, call)}
 
+(* call_next from method mid with `call` (possibly other values): the entry (code of mid, classes)  *)
+(* published by resolve() is the callable of the rank after mid's rank; nothing is published from   *)
+(* the first tied static rank on; a method that is no candidate for the classes starts afresh       *)
+FirstTiedV(R, call) ==
+  IF \E k \in DOMAIN R : ~RankOut(R, k, call).has
+  THEN CHOOSE k \in DOMAIN R : ~RankOut(R, k, call).has /\ \A q \in 1..(k-1) : RankOut(R, q, call).has
+  ELSE Len(R) + 1
+ImplValueNextOf(M, ranks, mid, call) ==
+  IF ranks = <<>> THEN NoMethod
+  ELSE LET R == RankMeths(M, ranks) IN
+       IF ~RankOut(R, 1, call).has THEN Ambiguous
+       ELSE IF ~InRanks(ranks, mid) THEN ImplValueOutcomeOf(M, ranks, call)
+       ELSE LET k == RankOfIn(ranks, mid)  ft == FirstTiedV(R, call) IN
+            IF k < ft /\ k + 1 <= Len(ranks)
+            THEN LET r == RankOut(R, k + 1, call) IN IF r.has THEN r.out ELSE Ambiguous
+            ELSE NoMethod
+
 (***************************************************************************)
 (* Input signatures of the known deviations                                *)
 (***************************************************************************)
@@ -96,8 +115,20 @@ KF_overlap_literals(W, M, call) ==
   \E a, b \in AppV(W, M, call) : a # b /\ a.prio = b.prio /\ a.pos[1].k = "lit" /\ b.pos[1].k = "lit"
 (* _pull: a rank is "the best candidate plus everything it does not dominate": when the best  *)
 (* candidate is a dependent method whose condition fails, methods it dominated are skipped     *)
+(* d is a candidate for the argument classes (what the type table looks at) *)
+TypeCand(W, d, call) ==
+  /\ ArityOk(d, call) /\ KwNamesOk(d, call)
+  /\ \A p \in DOMAIN call.pos : ImplSubT(W, call.pos[p].c, d.pos[p])
+  /\ \A q \in DOMAIN call.kwn : ImplSubT(W, call.kwa[q].c, d.kwt[KwIdx(d, call.kwn[q])])
 KF_pull_rank(W, M, call) ==
-  \E d \in M : IsDepMeth(d) /\ ~Applicable(W, d, call) /\ ArityOk(d, call) /\ KwNamesOk(d, call)
-     /\ \A p \in DOMAIN call.pos : ImplSubT(W, call.pos[p].c, d.pos[p])
-     /\ \A q \in DOMAIN call.kwn : ImplSubT(W, call.kwa[q].c, d.kwt[KwIdx(d, call.kwn[q])])
+  \E d \in M : IsDepMeth(d) /\ ~Applicable(W, d, call) /\ TypeCand(W, d, call)
+(* call_next(other values): the continuation is looked up by (calling method, argument classes); a  *)
+(* calling method that is a candidate for the classes of the new arguments but not applicable to    *)
+(* their values is still treated as "current" - the call continues below its rank instead of        *)
+(* starting afresh                                                                                   *)
+(* (and, when it is applicable, below its rank computed on classes: methods tied with it there that  *)
+(* hold for the new values are skipped).  Signature: the calling method is a candidate for the new    *)
+(* argument classes and so is some value-dependent method.                                            *)
+KF_next_other_value(W, M, m, call) ==
+  TypeCand(W, m, call) /\ \E d \in M : IsDepMeth(d) /\ TypeCand(W, d, call)
 =============================================================================
